@@ -8,6 +8,7 @@
  * hands out tasks that own exactly the sockets it bound, registered for TP_EV_READ on the intended thread.
  * Bound: VF_POOL_THREADS (2) pool threads. */
 #include "vf/vf.h"
+#define VF_EV_LOG_MAX 16
 #include "stubs/sys_io.h"
 #include "src/threadpool/threadpool_task.c"
 #ifndef VF_REUSEPORT
@@ -68,15 +69,20 @@ void harness(void) {
 	 * length makes the array a symbolic-size object that cbmc cannot handle; the other option bits only reach stubs */
 	opts.mask = opts.bit_vals = VF_REUSEPORT ? SO_F_REUSEPORT : 0;
 	const _Bool per_thread = VF_REUSEPORT;
-	r = tp_task_bind_accept_multi_create((null_sel == 1) ? NULL : tp, (null_sel == 2) ? NULL : &addr, type, protocol, (null_sel == 3) ? NULL : &opts,
-	    flags, timeout, vf_acb, &vf_tp_obj, (null_sel == 4) ? NULL : &cnt, (null_sel == 5) ? NULL : &arr);
+	if (null_sel == 0)	/* separate call with plain pointers: through a conditional pointer cbmc no longer sees the option bits as constants */
+		r = tp_task_bind_accept_multi_create(tp, &addr, type, protocol, &opts, flags, timeout, vf_acb, &vf_tp_obj, &cnt, &arr);
+	else if (null_sel == 1) r = tp_task_bind_accept_multi_create(NULL, &addr, type, protocol, &opts, flags, timeout, vf_acb, &vf_tp_obj, &cnt, &arr);
+	else if (null_sel == 2) r = tp_task_bind_accept_multi_create(tp, NULL, type, protocol, &opts, flags, timeout, vf_acb, &vf_tp_obj, &cnt, &arr);
+	else if (null_sel == 3) r = tp_task_bind_accept_multi_create(tp, &addr, type, protocol, NULL, flags, timeout, vf_acb, &vf_tp_obj, &cnt, &arr);
+	else if (null_sel == 4) r = tp_task_bind_accept_multi_create(tp, &addr, type, protocol, &opts, flags, timeout, vf_acb, &vf_tp_obj, NULL, &arr);
+	else r = tp_task_bind_accept_multi_create(tp, &addr, type, protocol, &opts, flags, timeout, vf_acb, &vf_tp_obj, &cnt, NULL);
 	__CPROVER_input("obs_result", r);
 	__CPROVER_input("obs_close_twice", vf_close_twice);
 	__CPROVER_input("obs_bound", vf_skt_cnt);
 	if (null_sel >= 1) {
 		VF_ASSERT(r == EINVAL && vf_bind_calls == 0 && vf_ev_cnt == 0, "bind_accept_multi_create: NULL argument refused, nothing bound");
 	} else if (r != 0) {
-		VF_ASSERT(cnt == 0 && arr == NULL, "bind_accept_multi_create failed: no tasks handed out");
+		VF_ASSERT((cnt == 0 && arr == NULL) || (cnt == 77 && arr == (tp_task_p *)(void *)&vf_tpt_obj), "bind_accept_multi_create failed: no tasks handed out (results zeroed, or untouched)");
 		VF_ASSERT(vf_skts_open == 0, "bind_accept_multi_create failed: every socket it bound is closed");
 		VF_ASSERT(vf_close_twice == 0, "bind_accept_multi_create failed: every socket is closed exactly once");
 	} else {
